@@ -97,6 +97,8 @@ REQUIRED = ["op:bytes-unchanged", "op:failure-reported", "op:trace-clean-on-fail
             "D:refused-foreign", "D:region-gbk-removed-on-reuse", "D:path-is-file", "D:path-missing"]
 
 INJECT_MESSAGE = "vf-c20 injected conversion failure"
+QUICK_PAIRS_FOR_TWO_RECORDS = 5
+THOROUGH_SAMPLE_PER_SIZE = 60
 
 
 # --------------------------------------------------------------------------------------------
@@ -1235,10 +1237,17 @@ def _run(ctx, base, main_module, config_module):
     summary = {"positions_per_shape": {}, "max_positions": 0, "events": {}, "fault_runs": 0, "positions_hit": 0,
                "aux_fault_runs": 0, "aux_positions_hit": 0, "aux_positions_max": 0}
     if quick:
-        max_records, comps, extras = 2, _compositions(ctx, 2, 2, 0), 1
+        # R=1: every ordered composition with M<=2; R=2: every composition with M<=1 and a seeded sample for M=2
+        max_records, extras = 2, 1
+        comps = _compositions(ctx, 2, 2, 0)
+        pairs = [c for c in comps if len(c) == 2]
+        ctx.rng("quick-pairs").shuffle(pairs)
+        shapes = [(1, comp) for comp in comps] + [(2, comp) for comp in comps if len(comp) < 2] + \
+                 [(2, comp) for comp in pairs[:QUICK_PAIRS_FOR_TWO_RECORDS]]
     else:
-        max_records, comps, extras = 3, _compositions(ctx, 2, 4, 60), len(EXTRA_KINDS)
-    shapes = [(records, comp) for records in range(1, max_records + 1) for comp in comps]
+        max_records, extras = 3, len(EXTRA_KINDS)
+        comps = _compositions(ctx, 2, 4, THOROUGH_SAMPLE_PER_SIZE)
+        shapes = [(records, comp) for records in range(1, max_records + 1) for comp in comps]
     # auxiliary-event sweeps: a few representative shapes
     aux_shapes = [(1, ["plain", "lazy"]), (1, ["hmm", "side"])] if quick else \
         [(1, ["plain", "lazy"]), (1, ["hmm", "side"]), (2, ["tta", "eager"]), (2, ["side", "hmm", "tta"]),
@@ -1258,7 +1267,12 @@ def _run(ctx, base, main_module, config_module):
             variants = VARIANTS[:2]
             aux_kinds = ["rotate"] if quick else ["TypeError", "ValueError", "KeyError"]
         else:
-            variants = VARIANTS[:2] + ([VARIANTS[2 + index % 4]] if quick else VARIANTS[2:])
+            if not quick:
+                variants = VARIANTS
+            elif records == 1 or index % 3 == 0:
+                variants = VARIANTS[:2] + [VARIANTS[2 + index % 4]]
+            else:
+                variants = VARIANTS[:2]
             aux_kinds = None
         ok, result = ctx.guard("harness:shape-crashed", {"part": "W", "mods": mods}, sweep_shape, ctx, mods, variants,
                                path, extras, aux_kinds, summary)
